@@ -74,6 +74,7 @@ GhostInit(S) ==
     trans    |-> [n \in S |-> <<>>],      \* leadership transitions (TRUE gain / FALSE loss), this incarnation
     pvGrants |-> {},                      \* <<candidate, term, voter>>: pre-vote grants that reached the candidate
     slog     |-> [n \in S |-> EmptyFn],   \* durable log as of the last state line (dlog moves at store events)
+    tn       |-> [n \in S |-> <<0, 0>>],  \* <<TimeoutNow requests handled, term increases made on their account>>
     seenTerm |-> [n \in S |-> 0],         \* highest term n was told about by somebody else
     starting |-> {},                      \* servers inside NewRaft (between `restart` and the `started` state line)
     rcur     |-> [n \in S |-> 0],         \* the user Restore call made last on n (op id, 0 = none)
@@ -340,7 +341,10 @@ DoState(ln) ==
                 THEN {<<"C18", "LeaderNeverLedThisTerm", <<n, post.leader, post.term>>>>} ELSE {}
       \* a self-initiated term increase (not learnt from anybody, not a leadership transfer) needs pre-vote
       \* grants for that term from a quorum of the server's voters -- which an isolated server cannot get
-      vInfl  == IF post.ct > pre.ct /\ sameInc /\ params.prevote /\ n \notin PvOff /\ ~pre.xfer /\ ~post.xfer /\ post.ct > g.seenTerm[n]
+      \* (a TimeoutNow entitles the server to ONE election without pre-vote)
+      byXfer == (pre.xfer \/ post.xfer) /\ g.tn[n][2] < g.tn[n][1]
+      selfUp == post.ct > pre.ct /\ sameInc /\ post.ct > g.seenTerm[n]
+      vInfl  == IF post.ct > pre.ct /\ sameInc /\ params.prevote /\ n \notin PvOff /\ ~byXfer /\ post.ct > g.seenTerm[n]
                    /\ Cardinality({v \in Voters(tab, pre.cl) : v = n \/ <<n, post.ct, v>> \in g.pvGrants}) < QuorumSize(tab, pre.cl)
                 THEN {<<"C14", "TermRaisedWithoutPreVoteQuorum", <<n, pre.ct, post.ct, {x \in g.pvGrants : x[1] = n /\ x[2] = post.ct}>>>>} ELSE {}
       \* a server that has durably recorded itself as the candidate voted for in its current term has voted for itself
@@ -362,6 +366,7 @@ DoState(ln) ==
   /\ obs' = o2 /\ dlog' = dl2 /\ dsnaps' = ds2
   /\ g' = [g EXCEPT !.agreed = ag2, !.reported = rep2, !.hpend[n] = <<>>, !.slog[n] = postLog,
                     !.starting = IF started THEN @ \ {n} ELSE @,
+                    !.tn[n] = IF selfUp /\ byXfer THEN <<@[1], @[2] + 1>> ELSE IF ~sameInc THEN <<0, 0>> ELSE @,
                     !.dur[n] = <<post.ct, post.vt, post.vc>>,
                     \* the vote record of the image a server is FIRST started from is a vote it has cast
                     !.grants = (IF started /\ pre.inc = 0 /\ post.vc # "" THEN @ \cup {<<n, post.vt, post.vc>>} ELSE @) \cup selfV,
@@ -407,6 +412,7 @@ DoHandle(ln) ==
   IN /\ g' = [g EXCEPT !.hpend[n] = Append(@, [regrant |-> (gr # {} /\ gr \subseteq g.grants)] @@ ln),
                        !.grants = @ \cup gr,
                        !.seenTerm[n] = IF ln.kind \in {"ae", "hb", "is", "rv"} THEN Max(@, ln.req.term) ELSE @,
+                       !.tn[n] = IF ln.kind = "tn" THEN <<@[1] + 1, @[2]>> ELSE @,
                        !.lastAck = IF ok THEN [p \in {<<ln.src, ln.req.term, n>>} |-> l] @@ @ ELSE @,
                        \* an installation counts as a transfer the leader repeated only once the leader has SEEN it succeed
                        \* (DoReply): a lost response makes the leader try again, which is the fault's doing
